@@ -24,6 +24,8 @@ import gc, itertools, json, operator, resource, signal, sys, warnings
 import common
 from common import err_kind
 from props import c03_flavours as FL
+from props import c03_calls as CL
+from props import c03_raise as RX
 
 ID = "C03"
 RULE = ("random histories (length 3..14 quick, ..40 thorough) over a pool of finite / periodic Streams, "
@@ -39,7 +41,16 @@ RULE = ("random histories (length 3..14 quick, ..40 thorough) over a pool of fin
         "None); element functions as lambda / def / bound method / callable / partial; exhaustive "
         "(call, count, constructor, mutation, following use) families; long runs (streams of 1000..9000 items with "
         "counts around powers of two and beyond 4096, histories of 300..2000 steps, peek/take/append loops of "
-        "60..2000 rounds).  A history is non-trivial when at least one step returned items; distinct = distinct JSON")
+        "60..2000 rounds).  Entry `calls`: the same histories with every operation written as the caller writes it "
+        "(count as int / bool / float / -0.0 / Fraction / None / omitted / a non-number / beyond sys.maxsize / beyond the "
+        "float range, positional or n=; every tie k + 0.5 for k = -3..6 as float and as Fraction through take / peek / skip / "
+        "limit; Stream(...) / append(...) with no, one, several arguments, iterables, scalars, both, an existing object among "
+        "them; sources built on itertools objects: chain, islice, finite repeat(v, k), count, endless repeat / cycle, the "
+        "lazy_itertools Streams, map, range, a Stream subclass, ControlStream; thub / tee with n = 0, 1, many, negative, bool, "
+        "float, omitted, on Streams, hubs, scalars) and refused / failing calls in the middle of the history, which then goes "
+        "on.  Entry `xhist`: histories over sources and element functions that raise at some items (5 maps, 3 predicates, 7 "
+        "elementwise attribute / call forms), read on after every exception, with and without copies / peek.  A history is "
+        "non-trivial when at least one step returned items; distinct = distinct JSON")
 TRUSTED = [
     "hand-written Lean model ALV/Model/C03.lean of lazy_stream.Stream/StreamTeeHub/thub and lazy_itertools.tee "
     "(modelled, not verified: itertools.tee/chain/cycle/repeat, map/filter builtins, list iterators, the generator "
@@ -50,6 +61,17 @@ TRUSTED = [
     "the same object with the same items afterwards (identity facts) is asserted by the harness on every step "
     "(alias / dirty / dirtyarg observations), not modelled; independence of a step from the calls on other "
     "objects holds in the list model by construction (specStep touches one pool entry)",
+    "the call layer (ALV/Model/C03Call.lean, elabCall) is a hand-written model of the argument handling of Stream.__init__, "
+    "take, skip, limit, append, thub, StreamTeeHub.__init__ and lazy_itertools.tee, including what CPython's isinf / round / "
+    "itertools.islice / itertools.tee accept (sys.maxsize = 2**63 - 1, float range 2**1024); a call that fails after "
+    "Stream(self) was built is identified with the failing limit of the history model (same exception, same lost use of a hub); "
+    "peek with a refused count is modelled as touching nothing (the real code has made a tee first: not observable)",
+    "raising elements (ALV/Model/C03X.lean): which iterator types go on after an exception (map, filter, chain, tee) and "
+    "which are finished by it (islice, generators), and that tee does not store an exception, are modelled from CPython's "
+    "behaviour, not verified; with copies the heap model alone is compared with the code (the event-list specification and "
+    "its theorems cover histories without copy / peek: raise_history_with_copies_PENDING)",
+    "StreamTeeHub.__del__ (MemoryLeakWarning with the number of unused copies) is an object-lifetime effect outside the "
+    "Lean model: checked behaviourally by extra_checks for n = 0..3 and every number of uses taken",
     "tagged items: harness/props/c03_flavours.py maps a model item (value, tag) to the Python object that stands "
     "for it and back (rep / unrep); the model only moves items around and applies the element functions to the value",
 ]
@@ -71,8 +93,14 @@ ASSUMPTIONS = [
     "stream is not fixed by the property — such histories are cut at the mutation (compare: _lent_cut), so an "
     "eager copy of the argument and a lazy read are both accepted.  What is fixed and checked: the streams never "
     "change the list, every call sees the whole list, containers handed out are the caller's to change",
-    "element functions are pure (a closure mutated after map/filter, a function that reads another stream, a source "
-    "that raises are outside the immutable list model)",
+    "element functions are deterministic (a closure mutated after map/filter, a function that reads another stream are "
+    "outside the list model); element functions and sources that raise are covered by the entry `xhist` on int items, "
+    "finite sources, Streams only (no StreamTeeHub)",
+    "calls with a refused count (Fraction / non-number / beyond sys.maxsize to take / peek) are generated on live plain "
+    "Streams only (on a StreamTeeHub `take` raises AttributeError whatever the argument); counts that are accepted and "
+    "astronomically large (take(sys.maxsize), skip(10**400)) are not generated: the executable list specification unrolls n "
+    "periods; skip with a count that int(round(.)) refuses raises lazily inside the generator and is not generated "
+    "(the model answers 'unsupported')",
     "a Stream subclass overriding __iter__ is covered as an argument (Stream(x), append(x), thub(x, n), tee(x, n), "
     "list(x), next(iter(x))); take / peek / copy / skip / ... called on such an instance read _data by design",
 ]
@@ -87,7 +115,13 @@ MANIFEST = {
             "(periodic_step_refines, periodic_take_refines, periodic_refines, periodic_refines_prefix, "
             "hist_refines_periodic; seq_eqv_sound), and on every history on which Python returns (SpecLive: no "
             "list()/take(inf) of an endless sequence, no filter rejecting a whole period) enough fuel exists "
-            "(periodic_total, periodic_take_total, hist_total)",
+            "(periodic_total, periodic_take_total, hist_total); histories of calls as the caller writes them — spellings of "
+            "counts, omitted arguments, argument lists, refused calls — refine the list model too (call_refines, "
+            "call_refines_periodic; call_defaults, count_bool, count_fraction, count_ties, stream_args, noniter_any_n), a call "
+            "or operation that raises leaves every Stream as it was (failed_call_no_trace, failed_op_no_trace, "
+            "refused_call_state); with element functions and sources that raise in the middle of a stream the model refines "
+            "an event-list model (raise_next, raise_take, raise_history without copies; raise_free_is_list_model; "
+            "raise_tee_once)",
     "note": "defect D1 (take/peek/limit/skip past the end raise RuntimeError under PEP 479) is recorded as known "
             "with four signatures; proposed_fixes/D1-take-past-end.diff repairs it (check then prints no finding)",
     "technique": "Lean 4 refinement proof (hub invariant buf ++ den parent = original, fuel-indexed next; caller "
@@ -164,7 +198,7 @@ class Runner(object):
         from audiolazy import Stream, StreamTeeHub, thub
         from audiolazy import lazy_itertools as lit
         self.Stream, self.Hub, self.thub, self.lit = Stream, StreamTeeHub, thub, lit
-        self.hist = case.get("entry") == "hist"
+        self.hist = case.get("entry") in ("hist", "calls")
         self.tagged = bool(case.get("tagged"))
         self.cap = int(case.get("cap", CAP))
         self.pool, self.objs, self.want, self.given = [], [], [], []
@@ -353,6 +387,88 @@ class Runner(object):
             return self.container(getattr(obj, o)(n, constructor=tuple), tuple)
         raise ValueError(ctor)
 
+    # --- calls as the caller writes them (entry `calls`) ------------------------------------
+    def carg(self, a):
+        k = a["k"]
+        if k == "lst":
+            return FL.iterable_of(self.literal(a["xs"]), a.get("as"), self.Stream)
+        if k == "scalar":
+            return self.item_in(a["v"])
+        if k == "endless":
+            return FL.endless_of([self.item_in(x) for x in a["xs"]], a.get("as"))
+        j = a["j"]
+        if j >= len(self.pool) or self.pool[j] is None:
+            raise LookupError("noobj")
+        return self.pool[j]
+
+    def cargs(self, args):
+        return [self.carg(a) for a in args]
+
+    def moved_args(self, args):
+        for a in args:
+            if a["k"] == "obj":
+                o = self.pool[a["j"]]
+                if o is not None and not isinstance(o, self.Hub):
+                    self.pool[a["j"]] = None
+
+    def _call(self, op, obj):
+        pool, Hub = self.pool, self.Hub
+        o = op["op"]
+        if o in ("take", "peek"):
+            a = op["a"]
+            pos, kw = CL.poskw(a)
+            ctor = op.get("ctor")
+            if ctor in ("tuple", "cap", "listkw"):
+                kw["constructor"] = {"tuple": tuple, "cap": self.capped, "listkw": list}[ctor]
+            r = getattr(obj, o)(*pos, **kw)
+            if a["t"] in ("omitted", "none"):
+                return {"x": self.item_out(r)}
+            return self.container(r, tuple if ctor == "tuple" else list)
+        if o == "new":
+            try:
+                args = self.cargs(op["args"])
+            except LookupError:
+                return {"err": "noobj"}
+            s = self.Stream(*args)
+            self.moved_args(op["args"])
+            pool.append(s)
+            return {"new": [len(pool) - 1]}
+        d = op["data"]
+        try:
+            data = self.carg(d)
+        except LookupError:
+            return {"err": "noobj"}
+        if o == "thub":
+            n = CL.nspell_py(op["n"])
+            if d["k"] == "scalar":
+                r = self.thub(data, n)
+                return {"const": d["v"]} if r is data else {"err": "not-the-object"}
+            ishub = isinstance(data, Hub)
+            before = _uses(data) if ishub else 0
+            try:
+                r = self.thub(data, n)
+            except Exception:
+                if ishub and 0 <= _uses(data) < before:
+                    pool.append(None)              # the use the failing constructor took is lost
+                raise
+            self.moved_args([d])
+            pool.append(r)
+            return {"new": [len(pool) - 1]}
+        if o == "tee":
+            rs = self.lit.tee(data, CL.nspell_py(op["n"])) if op.get("n") else self.lit.tee(data)
+            if d["k"] == "scalar":
+                if not isinstance(rs, tuple) or any(r is not data for r in rs):
+                    return {"err": "not-the-object"}
+                return self.container(rs, tuple)
+            if len(rs) and not isinstance(data, Hub):
+                pool[d["j"]] = None
+            out = []
+            for r in rs:
+                pool.append(r)
+                out.append(len(pool) - 1)
+            return {"new": out}
+        raise ValueError("unknown call " + o)
+
     def _drain(self, obj, op):
         via = op.get("via", "cap")
         if via == "cap":
@@ -388,6 +504,8 @@ class Runner(object):
                 return {"err": "noobj"}
             obj = pool[i]
         ishub = isinstance(obj, Hub)
+        if op.get("call") and o in ("take", "peek", "new", "thub", "tee"):
+            return self._call(op, obj)
         if o == "new":
             try:
                 args = self.build(op["src"])
@@ -410,12 +528,18 @@ class Runner(object):
             before = _uses(obj) if ishub else 0
             src = op.get("src")
             try:
-                if o == "skip" or o == "limit":
+                if (o == "skip" or o == "limit") and op.get("call"):
+                    pos, kw = CL.poskw(op["a"])
+                    r = getattr(obj, o)(*pos, **kw)
+                elif o == "skip" or o == "limit":
                     r = getattr(obj, o)(cnt_py(op["n"]))
                 elif o == "map":
                     r = obj.map(self.fn(MAPS, op, "f"))
                 elif o == "filter":
                     r = obj.filter(self.fn(PREDS, op, "p", pred=True))
+                elif op.get("call"):
+                    r = obj.append(*self.cargs(op["args"]))        # (only live objects are generated as arguments)
+                    self.moved_args(op["args"])
                 else:
                     try:
                         args = self.build(src)
@@ -473,6 +597,8 @@ class Runner(object):
 
 
 def impl(case):
+    if case.get("entry") == "xhist":         # finite sources only: every request returns
+        return RX.run(case)
     # a request that does not terminate (e.g. filter rejecting every item of an endless stream)
     # is cut by a CPU-time alarm; a first alarm is confirmed by a second run with a longer
     # budget, so that a stalled machine can never turn into a reported "hang"
@@ -578,6 +704,8 @@ def take_count(n):
 
 
 def round_count(n):
+    if n is None:
+        return None
     if isinstance(n, float) and (n != n or n in (INF, -INF)):
         return None
     return max(int(round(n)), 0)
@@ -683,6 +811,15 @@ class Sim:
                            xs[:-1] if k == "poplast" else xs + list(op["m"]["xs"]) if k == "extend" else
                            [op["m"]["v"]] * len(xs))
             return note
+        if op.get("call"):
+            kind, x = CL.plain_of(op)
+            if kind == "hop":
+                note = self._apply(x)
+                note["call"] = "hop"
+                return note
+            if x is not None:
+                self._made(x, "tee", mutable=False)
+            return {"call": "ret"}
         src = op.get("src")
         if "i" in op and src and src["k"] == "ref" and src["j"] >= len(self.lists):
             return {"nolist": True}
@@ -732,7 +869,7 @@ class Sim:
                 n = round_count(cnt_py(op["n"]))
                 if n is None:
                     return note          # (for a hub the placeholder is already appended)
-                un = pre + per * n
+                un = pre + (per * n if per else [])
                 if not per and n > len(pre):
                     flags.add(o + "-past-end")
                 if o == "skip":
@@ -1026,6 +1163,61 @@ def _hist(rng, length, wild, tagged, tees=None, **extra):
     return case
 
 
+def _calls(rng, length, wild, tagged):
+    """a `hist` history whose operations are written as calls: every operation respelled (count as
+    int / bool / float / Fraction / -0.0, positional / keyword / omitted; the argument list of
+    Stream(...) / append(...) written out, sources built on itertools objects; thub / tee n), and
+    refused / failing calls in between; the history goes on afterwards and every live object is
+    drained at the end"""
+    sim, ops = _new_sim(rng, tagged), []
+
+    def vals(n):
+        return _vals(rng, n, sim)
+    for _ in range(length):
+        if rng.random() < 0.22:
+            op = CL.odd_call(rng, sim, vals)
+        else:
+            op = _gen_hop(rng, sim, wild)
+            if op["op"] not in ("lit", "mut") and rng.random() < 0.8:
+                op = CL.respell(rng, op, FL.SRC_FLAVOURS) or op
+        ops.append(op)
+        sim.apply(op)
+    _finish(sim, ops, rng)
+    case = {"entry": "calls", "ops": ops}
+    if tagged:
+        case["tagged"] = True
+    return case
+
+
+def _tie_cases():
+    """every count exactly on a tie k + 0.5 (k = -3..6, even and odd), -0.0, as float and as Fraction,
+    through take / peek / skip / limit, positional and keyword, on a finite and on a periodic Stream"""
+    from fractions import Fraction
+    for base in ({"k": "lst", "xs": list(range(1, 9)), "as": "list"}, {"k": "endless", "xs": [1, 2, 3], "as": "it.cycle"}):
+        for k in range(-3, 7):
+            for t in ("flt", "frac"):
+                for kw in (False, True):
+                    a = {"t": t, "v": common.enc(Fraction(2 * k + 1, 2))}
+                    if kw:
+                        a["kw"] = True
+                    ops = [{"op": "new", "call": 1, "args": [base]}]
+                    for m in ("peek", "take", "skip", "limit"):
+                        ops.append({"op": m, "call": 1, "i": 0, "a": a, "ctor": "list"} if m in ("peek", "take")
+                                   else {"op": m, "call": 1, "i": 0, "a": a})
+                        ops.append({"op": "peek", "i": 0, "n": cnt_int(6), "ctor": "list"})
+                    ops.append({"op": "take", "i": 0, "n": cnt_int(9), "ctor": "list"})
+                    yield {"entry": "calls", "ops": ops}
+        for a in ({"t": "flt", "v": 0, "negzero": True}, {"t": "flt", "v": 0}, {"t": "frac", "v": 0}, {"t": "bool", "v": 0},
+                  {"t": "bool", "v": 1}):
+            ops = [{"op": "new", "call": 1, "args": [base]}]
+            for m in ("peek", "take", "skip", "limit"):
+                ops.append({"op": m, "call": 1, "i": 0, "a": a, "ctor": "list"} if m in ("peek", "take")
+                           else {"op": m, "call": 1, "i": 0, "a": a})
+                ops.append({"op": "peek", "i": 0, "n": cnt_int(4), "ctor": "list"})
+            ops.append({"op": "take", "i": 0, "n": cnt_int(9), "ctor": "list"})
+            yield {"entry": "calls", "ops": ops}
+
+
 def _exhaustive(depth):
     """all op sequences of the given depth over a small alphabet on Stream([1,2,3]) + one copy"""
     alpha = [
@@ -1222,11 +1414,18 @@ def generate(rng, tier, scale=1):
     cases = []
     if tier == "quick":
         nrand, maxlen, depth, nhist, nlong = 4000 * scale, 14, 3, 4500 * scale, 10 * scale
+        ncalls, nx = 3000 * scale, 2500 * scale
     else:
         nrand, maxlen, depth, nhist, nlong = 40000 * scale, 40, 4, 40000 * scale, 40 * scale
+        ncalls, nx = 30000 * scale, 30000 * scale
     if scale == 1:
         cases.extend(_exhaustive(depth))
         cases.extend(_owner_cases())
+        cases.extend(_tie_cases())
+    for k in range(nx):
+        cases.append(RX.history(rng, rng.randint(3, 12), copies=(k % 2 == 1)))
+    for k in range(ncalls):
+        cases.append(_calls(rng, rng.randint(3, maxlen), (k % 5) >= 3, tagged=(k % 4 == 3)))
     for k in range(nrand):
         wild = (k % 5) >= 3
         cases.append(_history(rng, rng.randint(3, maxlen), wild))
@@ -1249,6 +1448,37 @@ def request(case):
     return case
 
 
+def extra_checks(eng):
+    """StreamTeeHub.__del__ (an object-lifetime effect, outside the Lean model): a hub that dies with k unused
+    copies warns once, naming k, and lets them go; a hub whose copies were all used is silent"""
+    from audiolazy import Stream, thub
+    try:
+        from audiolazy.lazy_stream import MemoryLeakWarning
+    except ImportError:
+        MemoryLeakWarning = Warning
+    bad = []
+    for n in range(0, 4):
+        for used in range(0, n + 1):
+            h = thub([1, 2, 3], n)
+            got = [Stream(h).take(2) for _ in range(used)]
+            with warnings.catch_warnings(record=True) as w:
+                warnings.simplefilter("always")
+                h.__del__()
+                first = [str(x.message) for x in w if issubclass(x.category, MemoryLeakWarning)]
+                h.__del__()
+                again = len([x for x in w if issubclass(x.category, MemoryLeakWarning)]) - len(first)
+            left = n - used
+            want = ["StreamTeeHub requesting %d more copies than needed" % left] if left else []
+            try:
+                Stream(h)
+                after = "a use"
+            except IndexError:
+                after = "IndexError"
+            if first != want or again != 0 or _uses(h) != 0 or after != "IndexError" or got != [[1, 2]] * used:
+                bad.append((n, used, first, again, _uses(h), after))
+    yield ("thub-del-warns-once-with-the-number-of-unused-copies(10)", not bad, "n, used, warnings, again, left, then: %r" % (bad[:3],))
+
+
 # ----------------------------------------------------------------------------------------
 # comparison
 # ----------------------------------------------------------------------------------------
@@ -1266,7 +1496,7 @@ def _lent_cut(case, model):
     stream before (the real code reads a list argument lazily; the model took its contents at the
     call) — computed from the model's own observations, so that it also holds for every candidate
     of the shrinker"""
-    if case.get("entry") != "hist":
+    if case.get("entry") not in ("hist", "calls"):
         return None
     nlists, lent = 0, set()
     for k, op in enumerate(case["ops"]):
@@ -1298,6 +1528,18 @@ def compare(case, io, drv):
     steps = io.get("steps")
     if steps is None:
         return [("model", "impl harness failed: %r" % (io,)), ("spec", "impl harness failed")]
+    if case.get("entry") == "xhist":
+        # the event-list specification covers histories without copies (tee hands an exception to one copy
+        # only); with copies the heap model alone is compared
+        cut = next((k for k, op in enumerate(case["ops"]) if op["op"] in ("copy", "peek")), None)
+        for kind in ("model", "spec"):
+            a, b = (steps, drv[kind]) if (cut is None or kind == "model") else (steps[:cut], drv[kind][:cut])
+            d = _first_diff(a, b)
+            if d is not None:
+                k, x, y = d
+                out.append((kind, "step %d %s: impl=%s %s=%s" % (k, case["ops"][k] if k < len(case["ops"]) else None,
+                                                                 _abbr(x), kind, _abbr(y))))
+        return out
     cut = _cut(case, steps, drv)
     for kind in ("model", "spec"):
         a, b = (steps, drv[kind]) if cut is None else (steps[:cut], drv[kind][:cut])
@@ -1306,7 +1548,7 @@ def compare(case, io, drv):
             k, x, y = d
             op = case["ops"][k] if k < len(case["ops"]) else None
             out.append((kind, "step %d %s: impl=%s %s=%s" % (k, op, _abbr(x), kind, _abbr(y))))
-        elif cut is None and case.get("entry") == "hist" and io.get("lists") != drv[kind + "_lists"]:
+        elif cut is None and case.get("entry") in ("hist", "calls") and io.get("lists") != drv[kind + "_lists"]:
             out.append((kind, "the caller's containers at the end: impl=%s %s=%s" % (
                 _abbr(io.get("lists")), kind, _abbr(drv[kind + "_lists"]))))
     return out
@@ -1336,12 +1578,19 @@ def _summ(x):
 
 def classify(case, io, drv):
     steps = io.get("steps") or []
+    if case.get("entry") == "xhist":
+        d = _first_diff(steps, drv["model"])
+        if d is None:
+            return "raising-elements:spec-only"
+        k, x, y = d
+        return "raising-elements:%s:impl:%s:expected:%s" % (case["ops"][k]["op"] if k < len(case["ops"]) else "?",
+                                                            _summ(x), _summ(y))
     cut = _cut(case, steps, drv)
     if cut is not None:
         steps, drv = steps[:cut], dict(drv, model=drv["model"][:cut], spec=drv["spec"][:cut])
     d = _first_diff(steps, drv["spec"]) or _first_diff(steps, drv["model"])
     if d is None:
-        if cut is None and case.get("entry") == "hist" and io.get("lists") != drv.get("spec_lists"):
+        if cut is None and case.get("entry") in ("hist", "calls") and io.get("lists") != drv.get("spec_lists"):
             return "final-contents-of-the-callers-containers"
         return "no-difference"
     k, x, y = d
@@ -1369,9 +1618,13 @@ def _bucket(n):
 
 
 def tally(eng, case, io):
+    if case.get("entry") == "xhist":
+        eng.count("entry", "xhist" + (":with copies" if any(op["op"] in ("copy", "peek") for op in case["ops"]) else ""))
+        RX.tally(eng, case, io)
+        return
     ops = case["ops"]
     steps = io.get("steps", [])
-    hist = case.get("entry") == "hist"
+    hist = case.get("entry") in ("hist", "calls")
     eng.count("entry", case.get("entry") + (":tagged" if case.get("tagged") else "") +
               (":long-" + case["long"] if case.get("long") else ""))
     eng.count("history_len", min(len(ops) // 5 * 5, 60) if len(ops) < 60 else _bucket(len(ops)))
@@ -1382,7 +1635,9 @@ def tally(eng, case, io):
         ob = steps[k] if k < len(steps) else None
         kind = note.get("kind", "-")
         eng.count("op", op["op"] + ("@hub" if kind == "h" else "@raw-subclass" if kind == "r" else ""))
-        if "n" in op and isinstance(op["n"], dict):
+        if op.get("call"):
+            CL.tally(eng, op, ob)
+        if "n" in op and isinstance(op["n"], dict) and not op.get("call"):
             t = op["n"]["t"]
             if t == "int":
                 v = op["n"]["v"]
@@ -1454,6 +1709,16 @@ def _drop(ops, notes, ks):
                         return None
                     if src["j"] >= p1:
                         op = dict(op, src=dict(src, j=src["j"] - (p1 - p0)))
+                cargs = (op.get("args") or []) + ([op["data"]] if "data" in op else [])
+                if any(a["k"] == "obj" and p0 <= a["j"] < p1 for a in cargs):
+                    return None
+                if any(a["k"] == "obj" and a["j"] >= p1 for a in cargs):
+                    def _ren(a):
+                        return dict(a, j=a["j"] - (p1 - p0)) if (a["k"] == "obj" and a["j"] >= p1) else a
+                    if "args" in op:
+                        op = dict(op, args=[_ren(a) for a in op["args"]])
+                    if "data" in op:
+                        op = dict(op, data=_ren(op["data"]))
             if l1 > l0:
                 if op["op"] == "mut":
                     if l0 <= op["j"] < l1:
@@ -1525,7 +1790,27 @@ def shrink(case):
         yield c
 
 
+def _shrink_x(case):
+    ops = case["ops"]
+    n = len(ops)
+    for k in sorted({n // 2, n * 3 // 4, n - 2, n - 1}):
+        if 0 < k < n:
+            yield dict(case, ops=ops[:k])
+    creates = [op["op"] in ("new", "copy", "attr") for op in ops]
+    for k in range(n - 1, -1, -1):
+        if not creates[k]:
+            yield dict(case, ops=ops[:k] + ops[k + 1:])
+    for k, op in enumerate(ops):
+        if isinstance(op.get("es"), list) and op["es"]:
+            yield dict(case, ops=ops[:k] + [dict(op, es=op["es"][:-1])] + ops[k + 1:])
+            yield dict(case, ops=ops[:k] + [dict(op, es=op["es"][1:])] + ops[k + 1:])
+
+
 def _shrink(case):
+    if case.get("entry") == "xhist":
+        for c in _shrink_x(case):
+            yield c
+        return
     ops = case["ops"]
     n = len(ops)
     seen = set()
@@ -1557,7 +1842,7 @@ def _shrink(case):
                 yield c
         size //= 2
     # 3. flavours
-    if case.get("tagged"):
+    if case.get("tagged") and case.get("entry") != "calls":
         c = _untag(case)
         if emit(c):
             yield c
@@ -1624,8 +1909,13 @@ def _shrink(case):
 
 def neighbours(case):
     ops = case["ops"]
+    if case.get("entry") == "xhist":
+        for k in range(len(ops)):
+            if ops[k]["op"] not in ("new", "copy", "attr"):
+                yield dict(case, ops=ops[:k] + ops[k + 1:])
+        return
     for k, op in enumerate(ops):
-        c = op.get("n")
+        c = op.get("n") if not op.get("call") else None
         if isinstance(c, dict) and c["t"] == "int":
             for d in (-1, 1):
                 yield dict(case, ops=ops[:k] + [dict(op, n=cnt_int(c["v"] + d))] + ops[k + 1:])
